@@ -80,9 +80,15 @@ def gen_case(rng, tier, i):
     if int_phi:
         for c in cols:
             c["phi"] = [float(rng.randint(-3, 9)) for _ in range(n)]
+    int_theta = exact and rng.random() < 0.1   # integer-typed target_data with non-integer bin edges
+    if int_theta:
+        for c in cols:
+            c["theta"] = [None if t is None else float(math.floor(t)) for t in c["theta"]]
+        edges = sorted({e + 0.5 for e in edges} | {min(edges) - 1.5})
     decreasing = rng.random() < 0.3
     bad_bins = rng.random() < 0.05
-    case = {"kind": kind, "exact": exact, "n": n, "lead": lead, "cols": cols, "int_phi": int_phi,
+    case = {"kind": kind, "exact": exact, "n": n, "lead": lead, "cols": cols, "int_phi": int_phi, "int_theta": int_theta,
+            "grid_rule": rng.choice(["extend", "fill", "fill"]), "grid_fill": rng.choice([0.0, 3.5, -20.0]),
             "bins": (edges[::-1] if decreasing else edges), "bad_bins": bad_bins}
     if bad_bins and len(case["bins"]) >= 3:
         b = list(case["bins"])
@@ -99,6 +105,9 @@ def gen_case(rng, tier, i):
             case["cols"].append({"phi": [float(rng.randint(-3, 9)) if int_phi else dyadic(rng, -8, 8, 2) for _ in range(n)],
                                  "theta": gen_profile(rng, n, edges, exact)})
         case["cols"] = case["cols"][: case["extra"]]
+    if int_theta:
+        for c in case["cols"]:
+            c["theta"] = [None if t is None else float(math.floor(t)) for t in c["theta"]]
     return case
 
 
@@ -122,14 +131,37 @@ def close(a, b, exact):
     return abs(fa - b) <= 1e-9 * max(1, abs(fa), abs(b))
 
 
+def overlap_oracle(phi, theta, bins):
+    """the statement itself: each cell contributes to each bin in proportion to the overlap of the cell's
+    target_data interval with the bin (exact fractions).  Only for columns without degenerate cells (a cell whose
+    two bounds coincide has no interval; where its content goes is pinned by the other statements)."""
+    from fractions import Fraction as F
+    edges = [F(x) for x in bins]
+    dec = edges[0] > edges[-1]
+    if dec:
+        edges = edges[::-1]
+    out = [F(0)] * (len(edges) - 1)
+    for p, a, b in zip(phi, theta[:-1], theta[1:]):
+        a, b = F(a), F(b)
+        lo, hi = min(a, b), max(a, b)
+        if lo == hi:
+            return None
+        for j in range(len(out)):
+            ov = min(hi, edges[j + 1]) - max(lo, edges[j])
+            if ov > 0:
+                out[j] += F(p) * ov / (hi - lo)
+    return out[::-1] if dec else out
+
+
 def eval_kernel(case, drv):
     from xgcm.transform import interp_1d_conservative
     n, lead, bins = case["n"], case["lead"], case["bins"]
     exact = case["exact"]
     pdt = np.int64 if case.get("int_phi") else float
+    tdt = np.int64 if case.get("int_theta") and not any(t is None for c in case["cols"] for t in c["theta"]) else float
     phi = np.array([c["phi"] for c in case["cols"]], dtype=pdt).reshape(lead + [n])
     theta = np.array([[np.nan if t is None else t for t in c["theta"]] for c in case["cols"]],
-                     dtype=float).reshape(lead + [n + 1])
+                     dtype=float).reshape(lead + [n + 1]).astype(tdt)
     b = np.array(bins, dtype=float)
     try:
         out = interp_1d_conservative(phi, theta, b)
@@ -159,6 +191,11 @@ def eval_kernel(case, drv):
         if any(t is None for t in th):
             continue
         o = impl[1][k]
+        want = overlap_oracle(c["phi"], th, bins) if not case["bad_bins"] else None
+        if want is not None and not all(close(x, y, exact) for x, y in zip(o.tolist(), want)):
+            prop_ok = False
+            detail["overlap"] = {"col": k, "impl": o.tolist(), "proportional_overlap": [str(x) for x in want]}
+            break
         within = all(inc[0] <= t <= inc[-1] for t in th)
         if within:   # conservation
             s_out, s_in = sum(frac(x) for x in o.tolist()), sum(frac(x) for x in c["phi"])
@@ -169,7 +206,7 @@ def eval_kernel(case, drv):
             prop_ok = False
             detail["nonneg"] = {"col": k, "out": o.tolist()}
         # reversed bins only reverse the output
-        o2 = interp_1d_conservative(np.array(c["phi"], dtype=pdt), np.array(th, dtype=float), b[::-1].copy())
+        o2 = interp_1d_conservative(np.array(c["phi"], dtype=pdt), np.array(th, dtype=float).astype(tdt), b[::-1].copy())
         if not all(close(x, frac(y), exact) for x, y in zip(o2[::-1].tolist(), o.tolist())):
             prop_ok = False
             detail["reverse"] = {"col": k, "fwd": o.tolist(), "rev": o2.tolist()}
@@ -177,13 +214,13 @@ def eval_kernel(case, drv):
         if len(bins) >= 3:
             j = 1 + (k % (len(bins) - 2))
             merged = np.delete(b, j)
-            o3 = interp_1d_conservative(np.array(c["phi"], dtype=pdt), np.array(th, dtype=float), merged)
+            o3 = interp_1d_conservative(np.array(c["phi"], dtype=pdt), np.array(th, dtype=float).astype(tdt), merged)
             want = list(o[: j - 1]) + [o[j - 1] + o[j]] + list(o[j + 1:])
             if not all(close(x, frac(y), exact) or abs(x - y) <= 1e-9 * max(1, abs(x)) for x, y in zip(o3.tolist(), want)):
                 prop_ok = False
                 detail["merge"] = {"col": k, "j": j, "merged": o3.tolist(), "want": [float(w) for w in want]}
         # column independence: the column alone
-        o4 = interp_1d_conservative(np.array(c["phi"], dtype=pdt), np.array(th, dtype=float), b)
+        o4 = interp_1d_conservative(np.array(c["phi"], dtype=pdt), np.array(th, dtype=float).astype(tdt), b)
         if not np.array_equal(o4, o):
             prop_ok = False
             detail["columns"] = {"col": k, "alone": o4.tolist(), "in_nd": o.tolist()}
@@ -201,7 +238,9 @@ def eval_transform(case, drv):
             c["theta"] = [0.0 if t is None else t for t in c["theta"]]
     ds = xr.Dataset(coords={"zc": ("zc", np.arange(n) + 0.5), "zo": ("zo", np.arange(n + 1) * 1.0),
                             "e": ("e", np.arange(E) * 1.0)})
-    grid = xgcm.Grid(ds, coords={"Z": {"center": "zc", "outer": "zo"}}, boundary="extend", autoparse_metadata=False)
+    # the axis' own rule must not leak into the interpolation of centre-located target_data ("repeated boundary values")
+    grid = xgcm.Grid(ds, coords={"Z": {"center": "zc", "outer": "zo"}}, boundary=case.get("grid_rule", "extend"),
+                     fill_value=case.get("grid_fill", 0.0), autoparse_metadata=False)
     phi = xr.DataArray(np.array([c["phi"] for c in cols], dtype=np.int64 if case.get("int_phi") else float),
                        dims=["e", "zc"], name="phi")
     theta_o = np.array([c["theta"] for c in cols], dtype=float)
@@ -212,7 +251,7 @@ def eval_transform(case, drv):
         pad = np.concatenate([tc[:, :1], tc, tc[:, -1:]], axis=1)
         bounds = (pad[:, :-1] + pad[:, 1:]) / 2.0
     else:
-        target_data = xr.DataArray(theta_o, dims=["e", "zo"], name="theta")
+        target_data = xr.DataArray(theta_o.astype(np.int64) if case.get("int_theta") else theta_o, dims=["e", "zo"], name="theta")
         bounds = theta_o
     if case["chunk"]:
         phi = phi.chunk({"e": 1})
